@@ -1,9 +1,227 @@
 import NibabelModel.Model.C16
 import Driver.Util
-/-! Line-protocol driver for C16: `C16 <op> <args...>` -> one observable line. -/
+/-! Line-protocol driver for C16: `C16 <op> <args...>` -> one observable line.
+
+  Encodings (no spaces inside a token):
+  * triple `a:b:c` (float32 bit patterns, decimal); streamline = triples joined by `,` (`e` = no
+    points); list of streamlines joined by `;` (`-` = none)
+  * name = latin-1 codes joined by `_` (`e` = empty); words joined by `.` (`z` = none)
+  * item = `<pts>/<dpp>/<dps>`; dpp = `-` or `<name>=<row>|<row>…` joined by `+`; dps = `-` or
+    `<name>=<words>` joined by `+`; items joined by `;` (`-` = none)
+  * rationals `p/q` or `p`
+  * consumer history: string over `n` (next) and `c` (close)
+-/
 namespace Nb.Drv.C16
+open Nb Nb.C16
+
+def parseTriple? (s : String) : Option Triple :=
+  match (s.splitOn ":").mapM (·.toNat?) with
+  | some [a, b, c] => some (a, b, c)
+  | _ => none
+
+def parseSl? (s : String) : Option (List Triple) :=
+  if s = "e" then some [] else (s.splitOn ",").mapM parseTriple?
+
+def parseSls? (s : String) : Option (List (List Triple)) :=
+  if s = "-" then some [] else (s.splitOn ";").mapM parseSl?
+
+def parseName? (s : String) : Option Name :=
+  if s = "e" then some [] else (s.splitOn "_").mapM (·.toNat?)
+
+def parseWords? (s : String) : Option (List Nat) :=
+  if s = "z" then some [] else (s.splitOn ".").mapM (·.toNat?)
+
+def parseDpp? (s : String) : Option (List (Name × List (List Nat))) :=
+  if s = "-" then some [] else (s.splitOn "+").mapM (fun e =>
+    match e.splitOn "=" with
+    | [n, rows] => do
+        let n ← parseName? n
+        let rows ← (rows.splitOn "|").mapM parseWords?
+        pure (n, rows)
+    | _ => none)
+
+def parseDps? (s : String) : Option (List (Name × List Nat)) :=
+  if s = "-" then some [] else (s.splitOn "+").mapM (fun e =>
+    match e.splitOn "=" with
+    | [n, ws] => do
+        let n ← parseName? n
+        let ws ← parseWords? ws
+        pure (n, ws)
+    | _ => none)
+
+def parseItem? (s : String) : Option Item :=
+  match s.splitOn "/" with
+  | [p, a, b] => do
+      let p ← parseSl? p
+      let a ← parseDpp? a
+      let b ← parseDps? b
+      pure ⟨p, a, b⟩
+  | _ => none
+
+def parseItems? (s : String) : Option (List Item) :=
+  if s = "-" then some [] else (s.splitOn ";").mapM parseItem?
+
+def parseRat? (s : String) : Option Rat :=
+  match s.splitOn "/" with
+  | [p] => p.toInt?.map (fun (i : Int) => (i : Rat))
+  | [p, q] => do
+      let p ← p.toInt?
+      let q ← q.toNat?
+      if q = 0 then none else pure (mkRat p q)
+  | _ => none
+
+def parseRats? (s : String) : Option (List Rat) := (s.splitOn ",").mapM parseRat?
+
+def parseAff? (s : String) : Option Aff :=
+  match parseRats? s with
+  | some [a, b, c, d, e, f, g, h, i, x, y, z] => some ⟨a, b, c, d, e, f, g, h, i, x, y, z⟩
+  | _ => none
+
+def parseActs? (s : String) : Option (List Act) :=
+  s.toList.mapM (fun c => if c = 'n' then some Act.next else if c = 'c' then some Act.close else none)
+
+def showRat (r : Rat) : String :=
+  if r.den = 1 then toString r.num else toString r.num ++ "/" ++ toString r.den
+
+def showAff (A : Aff) : String :=
+  ",".intercalate ([A.a00, A.a01, A.a02, A.a10, A.a11, A.a12, A.a20, A.a21, A.a22, A.t0, A.t1, A.t2].map showRat)
+
+def showTriple (t : Triple) : String := s!"{t.1}:{t.2.1}:{t.2.2}"
+
+def showSl (s : List Triple) : String := if s.isEmpty then "e" else ",".intercalate (s.map showTriple)
+
+def showSls (l : List (List Triple)) : String := if l.isEmpty then "-" else ";".intercalate (l.map showSl)
+
+def showName (n : Name) : String := if n.isEmpty then "e" else "_".intercalate (n.map toString)
+
+def showWords (w : List Nat) : String := if w.isEmpty then "z" else ".".intercalate (w.map toString)
+
+def showItem (it : Item) : String :=
+  showSl it.pts ++ "/" ++
+  (if it.dpp.isEmpty then "-" else "+".intercalate (it.dpp.map (fun d =>
+    showName d.1 ++ "=" ++ "|".intercalate (d.2.map showWords)))) ++ "/" ++
+  (if it.dps.isEmpty then "-" else "+".intercalate (it.dps.map (fun d => showName d.1 ++ "=" ++ showWords d.2)))
+
+def showItems (l : List Item) : String := if l.isEmpty then "-" else ";".intercalate (l.map showItem)
+
+def showRec (r : TrkRec) : String :=
+  (if r.rows.isEmpty then "e" else "|".intercalate (r.rows.map showWords)) ++ "/" ++ showWords r.props
+
+def showFields (fs : List (List Nat)) : String := ",".intercalate (fs.map (fun f => showName (s20 f)))
+
+/-- run a consumer history against a reader run; one token per action -/
+def showHistory {α} (showItem : α → String) (run : GenRun α) (start : Nat) (acts : List Act) : String :=
+  let rec go (g : Gen α) : List Act → List String
+    | [] => []
+    | a :: as =>
+        let g' := g.step a
+        let tok := match a with
+          | .close => s!"c@{g'.pos}"
+          | .next =>
+              match g.st, g'.st with
+              | .finished, _ => s!"n:stop@{g'.pos}"      -- exhausted generator: StopIteration
+              | _, .suspended k => match run.items[k]? with
+                  | some it => s!"n:{showItem it.1}@{g'.pos}"
+                  | none => "n:?"
+              | _, _ => match run.err with
+                  | some e => s!"n:{e.name}@{g'.pos}"
+                  | none => s!"n:stop@{g'.pos}"
+        tok :: go g' as
+  " ".intercalate (go (Gen.init run true start) acts)
+
+def mapMOpt {α β} (f : α → Option β) (l : List α) : Option (List β) := l.mapM f
 
 def handle : List String → String
+  | ["off", l] =>
+      match l.toNat? with
+      | some l => let n := tckHdrOffset l; s!"{n} {tckDataStart l n}"
+      | none => "bad-op"
+  | ["buf", r] =>
+      match r.toNat? with
+      | some r => toString (tckBufferBytes r)
+      | none => "bad-op"
+  | ["tckw", l, sls] =>
+      match l.toNat?, parseSls? sls with
+      | some l, some sls =>
+          let n := tckHdrOffset l
+          s!"{n} {tckDataStart l n} {showSl (tckData sls)}"
+      | _, _ => "bad-op"
+  | ["tckr", off, req, ragged, start, acts, data] =>
+      match off.toNat?, req.toNat?, ragged.toNat?, start.toNat?, parseActs? acts, parseSl? data with
+      | some off, some req, some ragged, some start, some acts, some data =>
+          let c := tckBufferBytes req / 12
+          if c = 0 ∨ ragged ≥ 12 then "bad-op"
+          else showHistory showSl (tckRead c ragged off data) start acts
+      | _, _, _, _, _, _ => "bad-op"
+  | ["nameenc", k, name] =>
+      match k.toNat?, parseName? name with
+      | some k, some name =>
+          match encodeName k name with
+          | .error e => e.name
+          | .ok enc =>
+              "enc=" ++ showWords enc ++ " dec=" ++
+                (match decodeName (s20 enc) with
+                 | .ok (n, v) => showName n ++ "/" ++ toString v
+                 | .error e => e.name)
+      | _, _ => "bad-op"
+  | ["namedec", enc] =>
+      match parseWords? enc with
+      | some enc =>
+          (match decodeName enc with
+           | .ok (n, v) => showName n ++ "/" ++ toString v
+           | .error e => e.name)
+      | none => "bad-op"
+  | ["slices", nb, fields] =>
+      match nb.toNat?, (if fields = "-" then some [] else (fields.splitOn ",").mapM parseName?) with
+      | some nb, some fields =>
+          (match nameSlices nb fields scalarsName with
+           | .ok sl => if sl.isEmpty then "-" else ",".intercalate (sl.map (fun s => s!"{showName s.1}={min s.2.1 nb}:{min s.2.2 nb}"))
+           | .error e => e.name)
+      | _, _ => "bad-op"
+  | ["aff", order, vs, dims, a] =>
+      match parseRats? vs, parseIntList? dims, parseAff? a with
+      | some [v0, v1, v2], some [d0, d1, d2], some a =>
+          (match ioOrientSP a with
+           | none => "bad-op"
+           | some ao =>
+               let g : TrkGeom := ⟨(v0, v1, v2), (d0, d1, d2), order.toList, a⟩
+               match trackvisToRas g ao with
+               | .error e => e.name
+               | .ok t => showAff t ++ " " ++ showAff t.inv)
+      | _, _, _ => "bad-op"
+  | ["trk", order, vs, dims, a, items] =>
+      match parseRats? vs, parseIntList? dims, parseAff? a, parseItems? items with
+      | some [v0, v1, v2], some [d0, d1, d2], some a, some items =>
+          (match ioOrientSP a with
+           | none => "bad-op"
+           | some ao =>
+               let g : TrkGeom := ⟨(v0, v1, v2), (d0, d1, d2), order.toList, a⟩
+               match trackvisToRas g ao with
+               | .error e => e.name
+               | .ok t =>
+                   let tinv := t.inv
+                   match items.mapM (fun it => (it.pts.mapM (applyAffBits tinv)).map (fun p => { it with pts := p })) with
+                   | none => "inexact"
+                   | some tvItems =>
+                       match trkSaveItems tvItems with
+                       | .error e => e.name
+                       | .ok (h, words) =>
+                           let hdr := s!"n={h.nStreams} ns={h.ns} np={h.np} sf={showFields h.scalarFields} pf={showFields h.propFields} data={showWords words}"
+                           match trkLoadItems h words with
+                           | .error e => hdr ++ " load=" ++ e.name
+                           | .ok loaded =>
+                               -- eager: `tractogram.to_world()`; lazy: `LazyTractogram.data` with the pending affine
+                               match lazyItems t loaded, lazyStreamlines t loaded with
+                               | some ras, some sls =>
+                                   if ras.map (·.pts) = sls then hdr ++ " load=" ++ showItems ras ++ " lazy=" ++ showItems ras
+                                   else hdr ++ " load=" ++ showItems ras ++ " lazy=differs"
+                               | _, _ => hdr ++ " load=inexact")
+      | _, _, _, _ => "bad-op"
+  | ["trkr", ns, np, announced, junk, start, acts, words] =>
+      match ns.toNat?, np.toNat?, announced.toNat?, junk.toNat?, start.toNat?, parseActs? acts, parseWords? words with
+      | some ns, some np, some announced, some junk, some start, some acts, some words =>
+          showHistory showRec (trkRead ns np announced (junk + trkHeaderSize) words) start acts
+      | _, _, _, _, _, _, _ => "bad-op"
   | _ => "bad-op"
 
 end Nb.Drv.C16
